@@ -39,6 +39,7 @@
   the iterated binary operations (`thenN_eq_foldl`, `tensorN_eq_foldl`).
 -/
 import Model.Tensor
+import Model.TensorBubble
 
 namespace DV
 
@@ -74,9 +75,7 @@ variable {R : Type}
 def isZero [Zero R] [DecidableEq R] (t : Tensor R) : Bool :=
   t.arr.data.all (fun x => decide (x = 0))
 
-/-- `Tensor.map`, tensor.py:258-261: `Tensor(dom, cod, list(map(func, array.flatten())))`. -/
-def map (func : R → R) (f : Tensor R) : Tensor R :=
-  mk' f.dom f.cod ⟨[f.arr.data.size], f.arr.data.map func⟩
+-- `Tensor.map` (tensor.py:258-261) is defined in Model/TensorBubble.lean
 
 end Tensor
 
